@@ -163,8 +163,12 @@ class MaterialFile(BaseMaterial):
         """
         c = self.coefficients
         try:
-            n = c[0] + c[1]*w**c[2] / (w**2 - c[3]**c[4]) + \
-                c[5]*w**c[6] / (w**2 - c[7]**c[8])
+            n = c[0]
+            # terms with zero amplitude are absent (avoids 0/0 at their pole)
+            if c[1] != 0:
+                n = n + c[1]*w**c[2] / (w**2 - c[3]**c[4])
+            if c[5] != 0:
+                n = n + c[5]*w**c[6] / (w**2 - c[7]**c[8])
             for k in range(9, len(c), 2):
                 n += c[k]*w**c[k+1]
             return np.sqrt(n)
